@@ -219,11 +219,25 @@ def scn_rows(T, case):
     T.prove("C05.rows.configured_weights_not_modified", T.same(cfgw, ev._config.realizations.weights))
 
 
+# ---------------------------------------------------------------------------------- the filter inside the real evaluator
+def cases_chain(tier):
+    from contracts import integration
+
+    return integration.cases_filter_chain(('sort-objective', 'sort-constraint'), tier)
+
+
+def scn_chain(T, case):
+    from contracts import integration
+
+    integration.scn_filter_chain(T, case, "C05")
+
+
 SCENARIOS = [
     Scenario("sort_and_select", scn_select, cases_select, {"quick": 4, "thorough": 40}),
     Scenario("filter", scn_filter, cases_filter, {"quick": 10, "thorough": 60}),
     Scenario("check_range", scn_range, cases_range, {"quick": 1, "thorough": 1}),
     Scenario("filter_rows", scn_rows, cases_rows, {"quick": 3, "thorough": 20}),
+    Scenario("filter_inside_the_evaluator", scn_chain, cases_chain, {"quick": 3, "thorough": 10}),
 ]
 
 MANIFEST = {
